@@ -1786,6 +1786,24 @@ def _oracle_gapchars(case):
             v.append(("C11/fasta/auto-seq-type", f"{case['subst']} read with seq_type=None -> {[str(x) for x in auto.sequences]} {auto.trace.tolist()}, expected {want}"))
     except Exception as e:  # noqa: BLE001
         v.append(("C11/fasta/auto-seq-type/rejected", f"{case['subst']} read with seq_type=None: {type(e).__name__}: {e}"))
+    try:
+        import io
+        import warnings
+        import biotite.sequence as seq
+        import biotite.sequence.io.fasta as fasta
+        text = ""
+        for i, row in enumerate(case["subst"]):
+            half = len(row) // 2
+            text += f">s{i}\n{row[:half]}\n; a comment line\n  ; an indented comment line\n\t;tab\n{row[half:]}\n"
+        ffc = fasta.FastaFile.read(io.StringIO(text))
+        with warnings.catch_warnings():
+            warnings.simplefilter("ignore")
+            ac = fasta.get_alignment(ffc, additional_gap_chars=tuple(chars), seq_type=seq.NucleotideSequence if case["stype"] == "nuc" else seq.ProteinSequence)
+        if ([str(x) for x in ac.sequences], ac.trace.tolist()) != want:
+            v.append(("C11/fasta/comment-lines", f"{case['subst']} with ';' comment lines (plain, indented) between the row halves -> "
+                      f"{[str(x) for x in ac.sequences]} {ac.trace.tolist()}, expected {want}"))
+    except Exception as e:  # noqa: BLE001
+        v.append(("C11/fasta/comment-lines/rejected", f"{case['subst']} with ';' comment lines: {type(e).__name__}: {e}"))
     for perm in _it.permutations(chars):
         try:
             got = _read_gapped(case["stype"], case["subst"], tuple(perm))
@@ -2464,6 +2482,7 @@ def _oracle_fastareuse(case):
         return fasta.FastaFile.read(buf)
     reused = fasta.FastaFile()
     v = []
+    prev_want = None
     for step, a in enumerate(case["alis"]):
         ali = _mkali(alph, a["seqs"], a["trace"])
         fresh = fasta.FastaFile()
@@ -2471,8 +2490,17 @@ def _oracle_fastareuse(case):
         want = read(fresh)
         hist = f"alignments with {[len(x['trace']) for x in case['alis'][:step + 1]]} columns written one after the other under the names {names}"
         try:
+            clone = reused.copy() if step > 0 else None
             fasta.set_alignment(reused, ali, names)
-            got = read(reused)
+            if clone is not None:
+                # the copy taken before this write still holds the previous alignment, whatever happened to the original
+                got_clone = read(clone)
+                if got_clone != prev_want:
+                    v.append(("C11/fasta/reused-file/copy-not-independent", f"{hist}: a FastaFile.copy() taken before the last write reads {str(got_clone)[:160]}, "
+                              f"expected the previous alignment {str(prev_want)[:160]}"))
+                    break
+                fasta.set_alignment(clone, _mkali(alph, case["alis"][0]["seqs"], case["alis"][0]["trace"]), names)    # writing into the copy ...
+            got = read(reused)                                                                                          # ... must not touch the original
             got_text = read(through_text(reused))
             keys = list(reused.keys())
         except Exception as e:  # noqa: BLE001
@@ -2487,6 +2515,7 @@ def _oracle_fastareuse(case):
         if got_text != want:
             v.append(("C11/fasta/reused-file/after-write-read", f"{hist}: after write/read the reused FastaFile gives {str(got_text)[:200]}, a fresh one {str(want)[:200]}"))
             break
+        prev_want = want
         expect = ([("".join(a["seqs"][k][j] for j in [c[k] for c in a["trace"] if c[k] >= 0])) for k in range(n)], _renumber(a["trace"]))
         if want != expect:
             v.append(("C11/fasta/roundtrip", f"{hist}: fresh FastaFile gives {str(want)[:200]}, expected {str(expect)[:200]}"))
